@@ -1,6 +1,13 @@
 //! Stand-in for `rustfmt` on the simulated PATH. Mode from VERIF_RUSTFMT_MODE:
-//! pass (stdin -> stdout unchanged), fail (exit 1), nonutf8 (bytes that are not UTF-8, exit 0).
+//! pass (stdin -> stdout unchanged), fail (exit 1), nonutf8 (bytes that are not UTF-8, exit 0),
+//! killed (consumes stdin, prints nothing, dies from SIGKILL), killedpartial (prints the first half
+//! of its input, then dies from SIGKILL) — a formatter taken down by the OOM killer or a CI timeout.
 use std::io::{Read, Write};
+
+extern "C" {
+    fn raise(sig: i32) -> i32;
+}
+
 fn main() {
     let mode = std::env::var("VERIF_RUSTFMT_MODE").unwrap_or_else(|_| "pass".into());
     let mut input = Vec::new();
@@ -9,6 +16,20 @@ fn main() {
         "fail" => std::process::exit(1),
         "nonutf8" => {
             let _ = std::io::stdout().write_all(&[0xff, 0xfe, b'x', b'\n']);
+        }
+        "killed" => unsafe {
+            raise(9);
+        },
+        "killedpartial" => {
+            let mut half = input.len() / 2;
+            while half > 0 && (input[half] & 0xC0) == 0x80 {
+                half -= 1;
+            }
+            let _ = std::io::stdout().write_all(&input[..half]);
+            let _ = std::io::stdout().flush();
+            unsafe {
+                raise(9);
+            }
         }
         _ => {
             let _ = std::io::stdout().write_all(&input);
